@@ -65,8 +65,8 @@ func TestVerifC03(t *testing.T) {
 
 // C05: indexed batch reads overlay the batch on the committed state.
 func TestVerifC05(t *testing.T) {
-	k := Knobs{Name: "C05", Units: 150, RangeKeys: true, Batches: true, BatchIters: true, LongIters: true, Maint: true, AuditEvery: 15, NoAutoCompactionsPct: 15}
-	runDeck(t, "C05", "main", k, 300, 5000,
+	k := Knobs{Name: "C05", Units: 150, RangeKeys: true, Batches: true, BatchIters: true, LongIters: true, Iters: true, Limits: true, IterBurst: 12, Maint: true, AuditEvery: 15, NoAutoCompactionsPct: 15}
+	runDeck(t, "C05", "main", k, 900, 8000,
 		"Histories with up to 4 open batches (indexed and plain) receiving all op kinds while the DB is written to; indexed batches are read through "+
 			"(Get of every key, scans with random options) and compared with model(committed state) + batch ops; DB reads are compared with the "+
 			"model while batches are open (no leak), batches are committed, abandoned or applied into other batches.", nil)
